@@ -92,6 +92,10 @@ func (c *Conv) Apply(inputs []tensor.Tensor) ([]tensor.Tensor, error) {
 	kernel := inputs[1]
 	bias := inputs[2]
 
+	if err := c.validateShapes(x, kernel, bias); err != nil {
+		return nil, err
+	}
+
 	if len(c.dilations) == 0 {
 		c.setDefaultDilations(x)
 	}
@@ -117,6 +121,10 @@ func (c *Conv) Apply(inputs []tensor.Tensor) ([]tensor.Tensor, error) {
 		c.setPaddingWithAutoPad(x)
 	}
 
+	if err := c.validateKernelFits(x); err != nil {
+		return nil, err
+	}
+
 	var out tensor.Tensor
 
 	switch len(x.Shape()) {
@@ -140,6 +148,50 @@ func (c *Conv) Apply(inputs []tensor.Tensor) ([]tensor.Tensor, error) {
 	}
 
 	return []tensor.Tensor{out}, nil
+}
+
+// validateShapes validates that the shapes of the inputs and the attributes correspond.
+func (c *Conv) validateShapes(x, kernel, bias tensor.Tensor) error {
+	nDims := len(x.Shape())
+	if nDims != NDims1DConvolution && nDims != NDims2DConvolution {
+		return ops.ErrInvalidInput("the convolution operator currently only supports 1D or 2D convolution, i.e. shape [N x C x H (x W)]", c)
+	}
+
+	if len(kernel.Shape()) != nDims {
+		return ops.ErrInvalidInput("the kernel must have the same number of dimensions as the input", c)
+	}
+
+	if bias != nil && (len(bias.Shape()) != 1 || bias.Shape()[0] != kernel.Shape()[0]) {
+		return ops.ErrInvalidInput("the bias must have one value for every kernel", c)
+	}
+
+	nSpatialDims := nDims - nNonSpatialDims
+	NPadsPerDim := 2
+
+	if (len(c.dilations) != 0 && len(c.dilations) < nSpatialDims) ||
+		(len(c.strides) != 0 && len(c.strides) < nSpatialDims) ||
+		(len(c.pads) != 0 && len(c.pads) < nSpatialDims*NPadsPerDim) {
+		return ops.ErrInvalidInput("dilations, strides and pads must have a value for every spatial dimension", c)
+	}
+
+	if len(c.kernelShape) != 0 && !tensor.Shape(c.kernelShape).Eq(kernel.Shape()[nNonSpatialDims:]) {
+		return ops.ErrInvalidInput("kernel_shape must be equal to the shape of the kernel", c)
+	}
+
+	return nil
+}
+
+// validateKernelFits validates that the (dilated) kernel fits in the padded input along all
+// spatial dimensions.
+func (c *Conv) validateKernelFits(x tensor.Tensor) error {
+	nSpatialDims := len(x.Shape()) - nNonSpatialDims
+	for i := 0; i < nSpatialDims; i++ {
+		if x.Shape()[nNonSpatialDims+i]+c.pads[i]+c.pads[i+nSpatialDims] < c.kernelShape[i] {
+			return ops.ErrInvalidInput("the kernel does not fit in the padded input", c)
+		}
+	}
+
+	return nil
 }
 
 // ValidateInputs validates the inputs that will be given to Apply for this operator.
